@@ -603,7 +603,28 @@ Variables exh nonexh : option (str -> bool).
 Definition nl : layer := not_layer [] false exh nonexh.
 Definition matched (q : rpath) : bool := opt_match exh (join_path q) || opt_match nonexh (join_path q).
 (* what the exhaustiveness verdict promises: beneath a path the exhaustive program matches, the negation matches everything *)
-Hypothesis Hexh : forall p r, opt_match exh (join_path p) = true -> matched (p ++ r) = true.
+(* the paths the promise is needed for (e.g. those made of valid names; `fun _ => True` for all) *)
+Variable good : rpath -> Prop.
+Hypothesis Hexh : forall p r, good (p ++ r) -> r <> [] -> opt_match exh (join_path p) = true -> matched (p ++ r) = true.
+
+(* what a walk yields are entries of the tree *)
+Lemma spec_yields_entries : forall l mind maxd n d p q, In q (yields (spec l mind maxd d p n)) -> In q (all_entries p n).
+Proof.
+  intros l mind maxd n. induction n as [|kids IH| |] using node_ind'; intros d p q H.
+  - cbn [spec] in H. cbn [all_entries]. unfold shown, yields in H. destruct (Nat.ltb d mind); cbn in H; [contradiction|].
+    destruct (final_tag l _); cbn in H; try contradiction. destruct H as [<-|[]]. left. reflexivity.
+  - cbn [spec] in H. cbn [all_entries]. rewrite yields_app in H. apply in_app_or in H. destruct H as [H|H].
+    + unfold shown, yields in H. destruct (Nat.ltb d mind); cbn in H; [contradiction|].
+      destruct (final_tag l _); cbn in H; try contradiction. destruct H as [<-|[]]. left. reflexivity.
+    + right. destruct (pruned l mind d _ || over maxd (S d)); [contradiction|].
+      induction IH as [|k ks Hk _ IHks]; [contradiction|]. rewrite yields_app in H. apply in_app_or in H. apply in_or_app.
+      destruct H as [H|H]; [left; eapply Hk; exact H|right; apply IHks; exact H].
+  - cbn [spec] in H. cbn [all_entries]. rewrite yields_app in H. apply in_app_or in H. destruct H as [H|H].
+    + unfold shown, yields in H. destruct (Nat.ltb d mind); cbn in H; [contradiction|].
+      destruct (final_tag l _); cbn in H; try contradiction. destruct H as [<-|[]]. left. reflexivity.
+    + destruct (pruned l mind d _ || over maxd (S d)); cbn in H; contradiction.
+  - cbn in H. contradiction.
+Qed.
 
 Lemma nl_verdict : forall e t,
   nl e t = if opt_match exh (join_path (e_path e)) then VTree else if opt_match nonexh (join_path (e_path e)) then VFile else Keep.
@@ -640,10 +661,10 @@ Qed.
 
 (* C03: `not` yields exactly the entries of the underlying walk that the negation does not match; discarding whole
    trees changes nothing, given what the exhaustiveness verdict promises *)
-Theorem not_walk_yields : forall mind maxd n d p,
+Theorem not_walk_yields : forall mind maxd n d p, (forall q, In q (all_entries p n) -> good q) ->
   yields (spec (ls ++ [nl]) mind maxd d p n) = filter (fun q => negb (matched q)) (yields (spec ls mind maxd d p n)).
 Proof.
-  intros mind maxd n. induction n as [|kids IH| |] using node_ind'; intros d p.
+  intros mind maxd n. induction n as [|kids IH| |] using node_ind'; intros d p Hgood.
   - cbn [spec]. apply shown_not.
   - cbn [spec]. rewrite !yields_app, filter_app, shown_not. f_equal.
     set (e := mkEntry p true).
@@ -652,7 +673,12 @@ Proof.
                     = filter (fun q => negb (matched q))
                         (yields ((fix go (ks : list (name * node)) : list ritem :=
                            match ks with [] => [] | k :: ks' => spec ls mind maxd (S d) (p ++ [fst k]) (snd k) ++ go ks' end) kids))).
-    { induction IH as [|k ks Hk _ IHks]; [reflexivity|]. rewrite !yields_app, filter_app, Hk, IHks. reflexivity. }
+    { assert (Hg : forall q, In q ((fix go (ks : list (name * node)) : list rpath :=
+                      match ks with [] => [] | k :: ks' => all_entries (p ++ [fst k]) (snd k) ++ go ks' end) kids) -> good q).
+      { intros q Hq. apply Hgood. cbn [all_entries]. right. exact Hq. }
+      clear Hgood. induction IH as [|k ks Hk _ IHks]; [reflexivity|]. rewrite !yields_app, filter_app, Hk, IHks; [reflexivity| |].
+      - intros q Hq. apply Hg. apply in_or_app. right. exact Hq.
+      - intros q Hq. apply Hg. apply in_or_app. left. exact Hq. }
     unfold pruned. rewrite final_tag_snoc, nl_verdict.
     destruct (over maxd (S d)); [rewrite !orb_true_r; reflexivity|]. rewrite !orb_false_r.
     destruct (Nat.ltb d mind); cbn [negb andb]; [exact Hkids|].
@@ -660,19 +686,29 @@ Proof.
     + destruct (opt_match exh (join_path (e_path e))) eqn:Ex; cbn [step_layer fst].
       * (* the negation discards the tree: everything beneath is matched by the negation anyway *)
         symmetry. apply filter_all_false. intros q Hq. apply negb_false_iff.
-        assert (Hext : exists r, q = p ++ r).
-        { clear Hkids. induction kids as [|k ks IHk]; [contradiction|]. rewrite yields_app in Hq. apply in_app_or in Hq.
-          destruct Hq as [Hq|Hq]; [|inversion IH; subst; apply IHk; assumption].
-          destruct (spec_extend _ _ _ _ _ _ _ Hq) as [r ->]. exists ([fst k] ++ r). apply eq_sym, app_assoc. }
-        destruct Hext as [r ->]. apply Hexh. exact Ex.
+        assert (Hext : exists r, q = p ++ r /\ r <> [] /\ good q).
+        { clear Hkids. assert (Hg : forall q0, In q0 ((fix go (ks : list (name * node)) : list rpath :=
+                      match ks with [] => [] | k :: ks' => all_entries (p ++ [fst k]) (snd k) ++ go ks' end) kids) -> good q0).
+          { intros q0 Hq0. apply Hgood. cbn [all_entries]. right. exact Hq0. }
+          clear Hgood. induction kids as [|k ks IHk]; [contradiction|]. rewrite yields_app in Hq. apply in_app_or in Hq.
+          destruct Hq as [Hq|Hq].
+          - destruct (spec_extend _ _ _ _ _ _ _ Hq) as [r ->]. exists ([fst k] ++ r). split; [apply eq_sym, app_assoc|]. split; [discriminate|].
+            apply Hg. apply in_or_app. left. eapply spec_yields_entries. exact Hq.
+          - inversion IH; subst. apply IHk; [assumption|exact Hq|]. intros q0 Hq0. apply Hg. apply in_or_app. right. exact Hq0. }
+        destruct Hext as [r [-> [Hr Hg]]]. apply Hexh; [exact Hg|exact Hr|exact Ex].
       * destruct (opt_match nonexh (join_path (e_path e))); cbn [step_layer fst]; exact Hkids.
     + destruct (opt_match exh (join_path (e_path e))) eqn:Ex; cbn [step_layer fst].
       * symmetry. apply filter_all_false. intros q Hq. apply negb_false_iff.
-        assert (Hext : exists r, q = p ++ r).
-        { clear Hkids. induction kids as [|k ks IHk]; [contradiction|]. rewrite yields_app in Hq. apply in_app_or in Hq.
-          destruct Hq as [Hq|Hq]; [|inversion IH; subst; apply IHk; assumption].
-          destruct (spec_extend _ _ _ _ _ _ _ Hq) as [r ->]. exists ([fst k] ++ r). apply eq_sym, app_assoc. }
-        destruct Hext as [r ->]. apply Hexh. exact Ex.
+        assert (Hext : exists r, q = p ++ r /\ r <> [] /\ good q).
+        { clear Hkids. assert (Hg : forall q0, In q0 ((fix go (ks : list (name * node)) : list rpath :=
+                      match ks with [] => [] | k :: ks' => all_entries (p ++ [fst k]) (snd k) ++ go ks' end) kids) -> good q0).
+          { intros q0 Hq0. apply Hgood. cbn [all_entries]. right. exact Hq0. }
+          clear Hgood. induction kids as [|k ks IHk]; [contradiction|]. rewrite yields_app in Hq. apply in_app_or in Hq.
+          destruct Hq as [Hq|Hq].
+          - destruct (spec_extend _ _ _ _ _ _ _ Hq) as [r ->]. exists ([fst k] ++ r). split; [apply eq_sym, app_assoc|]. split; [discriminate|].
+            apply Hg. apply in_or_app. left. eapply spec_yields_entries. exact Hq.
+          - inversion IH; subst. apply IHk; [assumption|exact Hq|]. intros q0 Hq0. apply Hg. apply in_or_app. right. exact Hq0. }
+        destruct Hext as [r [-> [Hr Hg]]]. apply Hexh; [exact Hg|exact Hr|exact Ex].
       * destruct (opt_match nonexh (join_path (e_path e))); cbn [step_layer fst]; exact Hkids.
     + destruct (opt_match exh (join_path (e_path e))), (opt_match nonexh (join_path (e_path e))); reflexivity.
   - cbn [spec]. rewrite !yields_app, filter_app, shown_not. f_equal.
